@@ -280,6 +280,11 @@ def resolve (dir rel : Path) : Path := normAux dir.reverse rel
 
 def nonExistentDir : Str := "non-existent dir".toList
 
+/-- `os.path.abspath` as `relpath` applies it to both of its arguments: a relative path (e.g. the
+    `pathlib.Path` of a `project_url` such as `https://example.com/docs`) is taken from the process's
+    working directory -/
+def absolutize (cwd : Path) (isAbs : Bool) (p : Path) : Path := if isAbs then p else cwd ++ p
+
 /-! ### `MetaMarkdown.convert` + `convert_link` output -/
 
 structure Env where
